@@ -305,6 +305,9 @@ def run_check(prop, tier, base_seed, nworkers=None, extra_path=None, hashseed=0,
                          'want_scen': i == 0})
     # interleave so that slow batches do not pile up at the end
     reqs.sort(key=lambda r: -mod.COST.get(r['seeds'][0][0], 1))
+    det_n = int(os.environ.get('VERIF_DET_PAIRS', '300' if tier == 'thorough' else '40')) if write_evidence else 0
+    det_sample = []
+    det_checked = 0
     pool = Pool(nworkers, hashseed=hashseed, extra_path=extra_path, stderr_path=stderr_path)
     agg = dict(evaluations=0, signatures=set(), probes={}, faults={}, exceptions={}, steps=0,
                sim_time=0.0, verdicts={}, samples=[], by_batch={}, components=None)
@@ -324,8 +327,10 @@ def run_check(prop, tier, base_seed, nworkers=None, extra_path=None, hashseed=0,
                 agg['evaluations'] += 1
                 core.bump(agg['by_batch'], batch)
                 core.bump(agg['verdicts'], res['verdict'])
-                if collect_digests:
+                if collect_digests or len(det_sample) < det_n:
                     digests['%s:%d' % (batch, seed)] = res.get('digest')
+                    if len(det_sample) < det_n and res.get('verdict') in ('ok', 'known'):
+                        det_sample.append((batch, seed))
                 for k in ('probes', 'faults', 'exceptions'):
                     for kk, vv in (res.get(k) or {}).items():
                         core.bump(agg[k], kk, vv)
@@ -345,6 +350,23 @@ def run_check(prop, tier, base_seed, nworkers=None, extra_path=None, hashseed=0,
                     known_hits.setdefault(res['known'], []).append(res)
                 elif res['verdict'] == 'error':
                     errors.append({'status': 'harness', 'seed': seed, 'batch': batch, 'detail': res.get('detail')})
+        # determinism self-check: re-run a sample of seeds in other interpreters (3 workers, other hash seed and
+        # other OpenMP environments per slot) and compare the run digests
+        if det_sample and not violations:
+            pool2 = Pool(3, hashseed=12345, extra_path=extra_path)
+            try:
+                out2 = pool2.run([{'op': 'run', 'prop': prop, 'seeds': [[b, sd]]} for b, sd in det_sample], mod.TIMEOUT)
+            finally:
+                pool2.close()
+            for req2, results2, status2 in out2:
+                b, sd = req2['seeds'][0]
+                if status2 != 'ok' or not results2:
+                    continue
+                det_checked += 1
+                if results2[0].get('digest') != digests.get('%s:%d' % (b, sd)):
+                    errors.append({'status': 'non-deterministic', 'batch': b, 'seed': sd,
+                                   'first': digests.get('%s:%d' % (b, sd)), 'second': results2[0].get('digest')})
+        agg['det_checked'] = det_checked
         # an unattributed hang/crash: for properties about termination a reproducible hang is a violation
         reports = []
         if errors and getattr(mod, 'HANG_IS_VIOLATION', False):
@@ -458,6 +480,7 @@ def write_evidence_file(mod, prop, tier, base_seed, agg, wall, nviol, known_hits
             'workers': nworkers,
             'worker_restarts': restarts,
             'signature_examples': sorted(agg['signatures'])[:12],
+            'determinism_pairs_checked': int(agg.get('det_checked', 0)),
         },
         'assumptions': getattr(mod, 'ASSUMPTIONS', []),
     }
